@@ -56,7 +56,8 @@ TRUSTED = [
     "constructed anything; a sample is re-checked in really fresh interpreters on every run",
 ]
 ASSUMPTIONS = [
-    "no blake2b collision among the hashed classes / value dicts / tasks of a history",
+    "no blake2b collision among the hashed classes / value dicts / tasks of a history; the type hash separates the "
+    "classes of a history (false for classes that differ only in their name: finding F30c, compared with the spec only)",
     "field names of a class are distinct; operations are construct / Workflow.construct(lazy=, dont_cache=) / run / "
     "setattr / copy.copy / attrs.evolve / clear_cache (no in-place mutation of an input value, no mutation of a returned Workflow)",
 ]
@@ -505,6 +506,22 @@ def classify_f30b(defs, ops):
                         return True
             earlier.append(keys)
     return False
+
+
+def body_of(d):
+    return json.dumps([d["fields"], d["nodes"], d["out"], d["outtype"]], sort_keys=True)
+
+
+def classify_twins(defs, ops):
+    """F30c input class: the history creates tasks of two classes that differ only in their name."""
+    used = {op[1] for op in ops if op[0] == "new"}
+    return any(a < b and body_of(defs[a]) == body_of(defs[b]) for a in used for b in used)
+
+
+def nameless(o):
+    if o is not None and o[0] == "wf":
+        return ["wf", dict(o[1], name="*")]
+    return o
 
 
 # ------------------------------------------------------------------------------------------------
@@ -1014,7 +1031,17 @@ def run(ctx):
         while nmodel < nb or nnest < nn:          # interleaved, so that a short time box reaches both streams
             if nmodel < nb:
                 defs = [gen_def(rng, i) for i in range(3)]
+                twin = rng.random() < 0.2
+                if twin:       # W2 = W0 under another name: same fields, outputs and constructor source, so the same type hash
+                    defs[2] = dict(copy.deepcopy(defs[0]), name="W2")
                 hists = [gen_history(rng, defs, rng.choice([3, 4, 5, 6, 6, 7])) for _ in range(per)]
+                if twin:
+                    for h in hists:
+                        for op in h:
+                            if op[0] == "new" and op[1] == 0 and rng.random() < 0.5:
+                                op[1] = 2
+                            if op[0] == "clear" and op[1] == 0 and rng.random() < 0.5:
+                                op[1] = 2
                 batches.append({"module": "c30defs_%d" % nmodel, "defs": defs, "histories": hists, "nested": False})
                 nmodel += 1
             if nnest < nn and nmodel % 3 == 0 or nmodel >= nb and nnest < nn:
@@ -1091,17 +1118,24 @@ def run(ctx):
             if classify_f30b(m["defs"], m["history"]) != (i in excluded):
                 out.failures.append(Failure(case=case, observed=classify_f30b(m["defs"], m["history"]), expected=i in excluded,
                                             kind="tie", note="F30b classifier (python) != Spec.excluded (Coq)"))
+        twins = {i for i, m in enumerate(meta) if classify_twins(m["defs"], m["history"])}
+        dist["histories_with_twin_classes_F30c"] = len(twins)
         for i in sorted(spec_bad | pyfail)[:40]:
             m = meta[i]
             case = {"defs": m["defs"], "history": m["history"], "source": src_of(m["defs"])}
-            known = i in excluded
+            finding, note = None, "an observation of the history differs from what a fresh process shows"
+            if i in excluded:
+                finding = "F30b"
+                note = "superset-of-lazy hit reuses a graph built while an input the constructor branches on was lazy (F30b)"
+            elif i in twins and all(f is None or obs_view(nameless(norm_obs(o))) == obs_view(nameless(norm_obs(f)))
+                                    for o, f in zip(m["observed"], m["fresh"])):
+                finding = "F30c"
+                note = "a class that differs from another only in its name gets the other's workflow name (F30c)"
             out.failures.append(Failure(
                 case=case, observed=[norm_obs(o) for o in m["observed"]],
-                expected={"fresh_process": [norm_obs(o) for o in m["fresh"]]}, kind="spec", finding="F30b" if known else None,
-                note="superset-of-lazy hit reuses a graph built while an input the constructor branches on was lazy (F30b)"
-                if known else "an observation of the history differs from what a fresh process shows"))
+                expected={"fresh_process": [norm_obs(o) for o in m["fresh"]]}, kind="spec", finding=finding, note=note))
         for i in sorted(tie_bad)[:25]:
-            if i in excluded:
+            if i in excluded or i in twins:
                 continue        # outside the positive theorem's domain the implementation is compared with the spec only
             m = meta[i]
             out.failures.append(Failure(case={"defs": m["defs"], "history": m["history"], "source": src_of(m["defs"])},
